@@ -4,6 +4,7 @@ package run
 
 import (
 	"context"
+	"database/sql"
 	"fmt"
 	"io/ioutil"
 	"os"
@@ -15,7 +16,9 @@ import (
 
 	"github.com/Factom-Asset-Tokens/factom"
 	"github.com/pegnet/pegnet/modules/grader"
+	_ "github.com/mattn/go-sqlite3"
 	"github.com/pegnet/pegnetd/config"
+	"github.com/pegnet/pegnetd/fat/fat2"
 	"github.com/pegnet/pegnetd/node"
 	log "github.com/sirupsen/logrus"
 	"github.com/spf13/viper"
@@ -47,6 +50,8 @@ type Runner struct {
 	Retry  time.Duration
 	Wal    bool
 	NoHF   bool
+	// LegacySchema: create pn_addresses as an older build would have ("pre-v4" | "pre-v5") before the first start
+	LegacySchema string
 
 	Node   *node.Pegnetd
 	cancel context.CancelFunc
@@ -83,6 +88,29 @@ func New(c *gen.Chain, dbBase string) (*Runner, error) {
 	return r, nil
 }
 
+// createLegacyAddresses creates the balance table as a build that predates the v4 ("pre-v4": 30 assets) or the v5 ("pre-v5": 42
+// assets) asset lists would have created it, so that the daemon's own migrations bring it up to date at start-up.
+func createLegacyAddresses(file, era string) error {
+	n := map[string]int{"pre-v4": 30, "pre-v5": 42}[era]
+	if n == 0 {
+		return fmt.Errorf("unknown legacy schema %q", era)
+	}
+	var cols []string
+	i := 0
+	for t := fat2.PTickerInvalid + 1; t < fat2.PTickerMax && i < n; t++ {
+		c := strings.ToLower(t.String()) + "_balance"
+		cols = append(cols, fmt.Sprintf("\"%s\" INTEGER NOT NULL DEFAULT 0 CONSTRAINT \"insufficient balance\" CHECK (\"%s\" >= 0)", c, c))
+		i++
+	}
+	db, err := sql.Open("sqlite3", file)
+	if err != nil {
+		return err
+	}
+	defer db.Close()
+	_, err = db.Exec("CREATE TABLE \"pn_addresses\" (\"id\" INTEGER PRIMARY KEY, \"address\" BLOB NOT NULL UNIQUE, " + strings.Join(cols, ", ") + ")")
+	return err
+}
+
 // DBFile is the SQLite file pegnetd uses.
 func (r *Runner) DBFile() string { return r.DBBase + ".v4" }
 
@@ -103,6 +131,13 @@ func (r *Runner) Conf() *viper.Viper {
 // StartNode constructs the node and starts the sync loop.
 func (r *Runner) StartNode() error {
 	os.MkdirAll(filepath.Dir(r.DBBase), 0777)
+	if r.LegacySchema != "" {
+		if _, err := os.Stat(r.DBFile()); os.IsNotExist(err) {
+			if err := createLegacyAddresses(r.DBFile(), r.LegacySchema); err != nil {
+				return err
+			}
+		}
+	}
 	ctx, cancel := context.WithCancel(context.Background())
 	n, err := node.NewPegnetd(ctx, r.Conf())
 	if err != nil {
